@@ -402,3 +402,76 @@ def _ctx_sites():
                 pass
     rows.append(("sites_found", n_enter >= 10 and n_make >= 10, "found %d enter sites and %d level sites" % (n_enter, n_make)))
     return rows
+
+
+# ------------------------------------------------------------------------------------ Options.__init__ (C12: no_data_loss implies addition=False)
+
+def _opt_init_cases():
+    from pyvc.contract import UNPROVIDED
+    out = {}
+    for ln, ld in (("loss-flag-true", TRUE), ("loss-flag-false", FALSE), ("loss-flag-none", NONE), ("loss-flag-not-given", UNPROVIDED)):
+        for an, ad in (("addition-not-given", UNPROVIDED), ("addition-none", NONE), ("addition-false", FALSE), ("addition-true", TRUE),
+                       ("addition-type", Cls(name="addtype"))):
+            out["%s,%s" % (ln, an)] = dict(no_data_loss=ld, addition=ad)
+    return out
+
+
+@contract(F, "Options.__init__", props=["C12"])
+class OPTIONS_INIT:
+    """C12 `under no_data_loss ... unknown keys are rejected`: the documented rule of Options is that no_data_loss
+    turns an unspecified `addition` (not given, or None = "ignore unknown keys") into False (= reject them).
+    PREFIX REGION: only the first statement of __init__ (the `if no_data_loss:` block) is executed; the clauses
+    speak about the local `addition` after it (out_addition).  The rest of __init__ walks locals() and stores every
+    given local under its own name (outside the subset): audit `C12_options_init_stores_locals` checks that no
+    later statement rebinds `addition` and that the locals() loop is still there."""
+    region = dict(prefix=1)
+    cases = _opt_init_cases()
+    returns = {
+        "no_data_loss_rejects_unknown_keys_unless_told_otherwise":
+            "implies(truthy(no_data_loss) and (addition is None or addition is unprovided), out_addition is False)",
+        "an_explicit_choice_is_kept": "implies(not (addition is None or addition is unprovided), out_addition is addition)",
+        "without_the_flag_nothing_changes": "implies(not truthy(no_data_loss), out_addition is addition)",
+    }
+    only_raises = []
+    assumes = ["prefix region: the statements after the first one are not executed (locals() walk: outside the subset); "
+               "that they store the local `addition` as self.addition is the audited syntactic fact C12_options_init_stores_locals"]
+
+
+@audit("C12_options_init_stores_locals", props=["C12"])
+def _options_init_stores_locals():
+    """the link between the proved prefix of Options.__init__ and the attribute the parsers read: (a) no statement
+    after the first rebinds `addition`; (b) the function still ends by walking locals() and storing
+    `self.__dict__[key] = val` for every given local; (c) `addition` is still a parameter and an Options attribute."""
+    import ast as _ast
+    import os as _os
+    from pyvc import REPO
+    tree = _ast.parse(open(_os.path.join(REPO, F)).read())
+    out = []
+    cls = [n for n in tree.body if isinstance(n, _ast.ClassDef) and n.name == "Options"]
+    if not cls:
+        return [("options_class_present", False, "class Options not found")]
+    init = [n for n in cls[0].body if isinstance(n, _ast.FunctionDef) and n.name == "__init__"]
+    if not init:
+        return [("options_init_present", False, "Options.__init__ not found")]
+    fn = init[0]
+    params = [a.arg for a in fn.args.kwonlyargs + fn.args.args]
+    out.append(("addition_is_a_parameter", "addition" in params and "no_data_loss" in params, "parameters: %s" % params[:8]))
+    attrs = [t.id if isinstance(t, _ast.Name) else None for n in cls[0].body if isinstance(n, (_ast.Assign, _ast.AnnAssign))
+             for t in (n.targets if isinstance(n, _ast.Assign) else [n.target])]
+    out.append(("addition_is_an_options_attribute", "addition" in attrs, "class-level defaults"))
+    body = list(fn.body)
+    if body and isinstance(body[0], _ast.Expr) and isinstance(getattr(body[0], "value", None), _ast.Constant):
+        body = body[1:]
+    later = [n for st in body[1:] for n in _ast.walk(st)
+             if isinstance(n, _ast.Name) and n.id == "addition" and isinstance(n.ctx, (_ast.Store, _ast.Del))]
+    out.append(("addition_not_rebound_after_the_proved_prefix", not later, "stores at lines %s" % [n.lineno for n in later]))
+    ok = False
+    for st in body:
+        if isinstance(st, _ast.For) and isinstance(st.iter, _ast.Call) and _ast.unparse(st.iter) == "locals().items()":
+            tgt = _ast.unparse(st.target)
+            for n in _ast.walk(st):
+                if isinstance(n, _ast.Assign) and _ast.unparse(n.targets[0]) == "self.__dict__[key]" and _ast.unparse(n.value) == "val" \
+                        and tgt == "(key, val)":
+                    ok = True
+    out.append(("locals_are_stored_under_their_names", ok, "for key, val in locals().items(): ... self.__dict__[key] = val"))
+    return out
